@@ -119,7 +119,7 @@ func loLoadLib(L *LState) int {
 
 func loSeeAll(L *LState) int {
 	mod := L.CheckTable(1)
-	mt := L.GetMetatable(mod)
+	mt := L.metatable(mod, true) // the raw metatable: a __metatable field must not get in the way
 	if mt == LNil {
 		mt = L.CreateTable(0, 1)
 		L.SetMetatable(mod, mt)
